@@ -29,8 +29,19 @@ def install_assert_solver(eng):
         except E.Inconclusive:
             pass
         # 2. integer encoding with explicit mod 2^w (FP ops as uninterpreted functions of bit patterns)
+        # path-condition conjuncts that only compare a double with a constant carry no information in this encoding (FP operations are
+        # uninterpreted there) and slow it down; dropping assumptions is sound for an unsat verdict, and a sat answer of this route is
+        # re-checked below against the full condition before it is reported
+        def pure_fp_cmp(c):
+            k = c.decl().kind()
+            if k == z3.Z3_OP_NOT: return pure_fp_cmp(c.arg(0))
+            if k in (z3.Z3_OP_AND, z3.Z3_OP_OR): return all(pure_fp_cmp(x) for x in c.children())
+            return k in (z3.Z3_OP_FPA_LT, z3.Z3_OP_FPA_GT, z3.Z3_OP_FPA_LE, z3.Z3_OP_FPA_GE, z3.Z3_OP_FPA_EQ) and any(z3.is_fp_value(x) for x in c.children())
+        pc_int = [c for c in st.pc if not pure_fp_cmp(c)]
         dump = []
-        r, info = bv2int.solve_int(st.pc, bad, timeout_ms=120000, dump=dump)
+        r, info = bv2int.solve_int(pc_int, bad, timeout_ms=120000, dump=dump)
+        if r == 'sat' and len(pc_int) != len(st.pc):
+            r, info = bv2int.solve_int(st.pc, bad, timeout_ms=120000, dump=dump)
         if r == 'unsat':
             cv = cvc5_check(dump[0])
             st.log.append(('route', msg, 'int-encoding', 'unsat', round(time.time() - t0, 2), 'cvc5:' + cv))
